@@ -51,9 +51,30 @@ def answers (limit : Option Nat) (A : Nat) : PC → List Event → List Bool
   | _, [] => []
   | pc, ev :: rest => (pcStep limit A pc ev).2 :: answers limit A (pcStep limit A pc ev).1 rest
 
+/-- a list of answers (`true` = keep going) as a sink script -/
+def scriptOf (as : List Bool) : Script :=
+  fun k => if as[k]? == some false then .stop else .cont
+
 /-- the limit as a sink script, for the uninterrupted stream `E` -/
 def maxCountScript (limit : Option Nat) (A : Nat) (E : List Event) : Script :=
-  fun k => if (answers limit A {} E)[k]? == some false then .stop else .cont
+  scriptOf (answers limit A {} E)
+
+/-- `SummarySink` (`crates/printer/src/summary.rs`; kinds Count / CountMatches, line-oriented search): it counts
+the `matched` callbacks and refuses once `match_count >= limit` (`should_quit`); context callbacks are not
+overridden (always "keep going"); `begin` refuses iff the limit is 0. -/
+def scStep (limit : Option Nat) (mc : Nat) : Event → Nat × Bool
+  | .begin => (0, !(limit == some 0))
+  | .matched _ _ _ =>
+    (mc + 1, !(match limit with
+               | none => false
+               | some l => decide (mc + 1 ≥ l)))
+  | _ => (mc, true)
+
+def summaryAnswers (limit : Option Nat) : Nat → List Event → List Bool
+  | _, [] => []
+  | mc, ev :: rest => (scStep limit mc ev).2 :: summaryAnswers limit (scStep limit mc ev).1 rest
+
+def summaryScript (limit : Option Nat) (E : List Event) : Script := scriptOf (summaryAnswers limit 0 E)
 
 /-- does the callback count against the trailing lines: a further match or an after-context line -/
 def trailing : Event → Bool
